@@ -31,7 +31,8 @@ Theorem C14_header_prefix : forall a r ts b, len (a :: r) <= 255 -> existsb (fun
                      /\ length flags = (length (a :: r) / 2 + 1)%nat.
 Proof.
   intros a r ts b Hl Hlong Hb. unfold encode_multi.
-  replace (255 <? len (a :: r)) with false by (symmetry; apply N.ltb_ge; exact Hl). rewrite Hlong, Hb.
+  match goal with |- context [if ?c then HTooManyAtoms _ else _] => destruct c eqn:E end; [apply N.ltb_lt in E; unfold bytes in *; lia|].
+  match goal with |- context [if ?c then HErr EAtomTooLarge else _] => replace c with false by (symmetry; exact Hlong) end. rewrite Hb.
   eexists. eexists. split; [reflexivity|].
   unfold header_flags. rewrite flags_fold_length.
   destruct (existsb (fun a0 : list N => 255 <? len a0) (a :: r)); [rewrite set_nthb_length|]; apply repeat_length.
@@ -42,7 +43,8 @@ Theorem C14_oversized_atom_is_an_error : forall order ts, order <> [] -> len ord
   existsb (fun x => 65535 <? len x) order = true -> encode_multi order ts = HErr EAtomTooLarge.
 Proof.
   intros order ts Hne Hl Hlong. unfold encode_multi. destruct order as [|a r]; [contradiction|].
-  replace (255 <? len (a :: r)) with false by (symmetry; apply N.ltb_ge; exact Hl). now rewrite Hlong.
+  match goal with |- context [if ?c then HTooManyAtoms _ else _] => destruct c eqn:E end; [apply N.ltb_lt in E; unfold bytes in *; lia|].
+  match goal with |- context [if ?c then HErr EAtomTooLarge else _] => replace c with true by (symmetry; exact Hlong) end. reflexivity.
 Qed.
 
 (* a cached atom is written as ATOM_CACHE_REF with its header position *)
